@@ -57,6 +57,8 @@ func leq(a, b *escape.EscapeGraph) bool {
 
 type c15Stats struct {
 	laws, incomparable, mono, strict int
+	monoFromInitial              int
+	initialPairStoppedAtCall     int
 }
 
 // c15Function checks the laws on the graphs of one function. pick draws indices.
@@ -161,6 +163,36 @@ func c15Function(v escape.VerifFunc, pick func(n int, label string) int, st *c15
 				return fmt.Sprintf("%s: transfer function of %q is not monotone: inputs were ordered, outputs are not (%s)", where, ins, reason)
 			}
 		}
+		// second pair: the function's initial graph (what the first visit of the block sees at most) against the
+		// fixpoint graph at the block start. An effect that depends on what an earlier iteration already added to the
+		// graph (edges that only arrive through a back edge) shows up here and not in the pair above, whose two
+		// graphs both contain everything the fixpoint contains.
+		lo := v.Initial().Clone()
+		hi := v.BlockStart(b)
+		if !leq(lo, hi) {
+			continue
+		}
+		for _, ins := range b.Instrs {
+			if ci, ok := ins.(ssa.CallInstruction); ok {
+				if _, builtin := ci.Common().Value.(*ssa.Builtin); !builtin {
+					// instantiation of callee summaries is judged by the first pair only: on the initial graph it creates
+					// load nodes that the fixpoint graph does not need, which LessEqual reports as a missing edge; that
+					// observation was not triaged (DESIGN.md section 7.6) and is not claimed either way
+					st.initialPairStoppedAtCall++
+					break
+				}
+			}
+			if msg := v.Transfer(ins, lo); msg != "" {
+				break // the small graph lacks what the instruction expects: discarded
+			}
+			if msg := v.Transfer(ins, hi); msg != "" {
+				break
+			}
+			st.monoFromInitial++
+			if ok, reason := lo.LessEqual(hi); !ok {
+				return fmt.Sprintf("%s: transfer function of %q is not monotone: the function's initial graph and the fixpoint graph at the block start were ordered, the outputs are not (%s)", where, ins, reason)
+			}
+		}
 	}
 	return ""
 }
@@ -258,6 +290,7 @@ func TestC15(t *testing.T) {
 		})
 		rec.Count("law_instances", st.laws)
 		rec.Count("monotonicity_steps", st.mono)
+		rec.Count("monotonicity_steps_initial_vs_fixpoint", st.monoFromInitial)
 		if strings.HasPrefix(msg, "HARNESS") {
 			rt.Fatalf("%s", msg)
 		}
